@@ -126,3 +126,94 @@ def compare(res, par, raw=False, check_pairs=True):
                     diffs.append('%s.%s[%d]: spec %r real %r' % (name, cn, ri,
                                  [text(x) for x in sc] if alen > 0 else text(sc), rc))
     return diffs
+
+
+def num_equal(base, a, b):
+    """a, b: token texts of one numeric cell."""
+    if base in INT_BASES:
+        try:
+            return int(a) == int(b)
+        except ValueError:
+            return False
+    try:
+        return same_float(float(a), float(b), 4 if base == 'float' else 8)
+    except ValueError:
+        return False
+
+
+def compare_res(want, got, check_pairs=True):
+    """Both arguments are SpecParse-shaped values produced by TLC (want = Canon(doc), got = SpecParse(text
+    the real writer produced)).  Strings must be equal, numeric tokens equal by value."""
+    diffs = []
+    if check_pairs and [(text(k), text(v)) for k, v in want['pairs']] != [(text(k), text(v)) for k, v in got['pairs']]:
+        diffs.append('pairs: want %r got %r' % ([(text(k), text(v)) for k, v in want['pairs']], [(text(k), text(v)) for k, v in got['pairs']]))
+    wn = [text(t['name']) for t in want['tables']]
+    gn = [text(t['name']) for t in got['tables']]
+    if wn != gn:
+        return diffs + ['tables: want %r got %r' % (wn, gn)]
+    # a declaration repeated verbatim (one per enum column) declares the same type: compare as sets
+    if {(text(e['name']), tuple(text(l) for l in e['labels'])) for e in want['enums']} != \
+            {(text(e['name']), tuple(text(l) for l in e['labels'])) for e in got['enums']}:
+        diffs.append('enum definitions differ')
+    for tw, tg in zip(want['tables'], got['tables']):
+        name = text(tw['name'])
+        cw = [(text(c['name']), text(c['base']), c['alen']) for c in tw['cols']]
+        cg = [(text(c['name']), text(c['base']), c['alen']) for c in tg['cols']]
+        if cw != cg:
+            diffs.append('%s columns: want %r got %r' % (name, cw, cg))
+            continue
+        if tuple(tw['width']) != tuple(tg['width']):
+            diffs.append('%s char widths: want %r got %r' % (name, tuple(tw['width']), tuple(tg['width'])))
+        if len(tw['rows']) != len(tg['rows']):
+            diffs.append('%s rows: want %d got %d' % (name, len(tw['rows']), len(tg['rows'])))
+            continue
+        for ri, (rw, rg) in enumerate(zip(tw['rows'], tg['rows'])):
+            for ci, (cname, base, alen) in enumerate(cw):
+                a, b = rw[ci], rg[ci]
+                numeric = base in INT_BASES or base in FLT_BASES
+                if alen > 0:
+                    ok = len(a) == len(b) and all((num_equal(base, text(x), text(y)) if numeric else text(x) == text(y))
+                                                  for x, y in zip(a, b))
+                else:
+                    ok = num_equal(base, text(a), text(b)) if numeric else text(a) == text(b)
+                if not ok:
+                    diffs.append('%s.%s[%d]: want %r got %r' % (name, cname, ri, a, b))
+    return diffs
+
+
+def doc_to_arrays(doc):
+    """Concretise a spec document: one numpy record array per struct (+ enums dict, header dict, names)."""
+    from collections import OrderedDict
+    enum_defs = {text(e['name']): [text(l) for l in e['labels']] for e in doc['enums']}
+    names, arrays, enums = [], [], {}
+    for si, s in enumerate(doc['structs']):
+        dt = []
+        for c in s['cols']:
+            base = text(c['base'])
+            cn = text(c['name'])
+            if base in INT_BASES:
+                b = INT_BASES[base]
+            elif base in FLT_BASES:
+                b = FLT_BASES[base]
+            elif base == 'char':
+                b = 'S%d' % max(c['clen'], 1)
+            else:
+                b = 'S%d' % max(len(l) for l in enum_defs[base])
+                enums[cn] = (base, tuple(enum_defs[base]))
+            dt.append((cn, b, (c['alen'],)) if c['alen'] > 0 else (cn, b))
+        rows = [r['cells'] for r in doc['rows'] if r['t'] == si + 1]
+        arr = np.zeros((len(rows),), dtype=np.dtype(dt))
+        for ri, cells in enumerate(rows):
+            for ci, c in enumerate(s['cols']):
+                base = text(c['base'])
+                cn = text(c['name'])
+                conv = (lambda x: int(text(x))) if base in INT_BASES else \
+                    (lambda x: float(text(x))) if base in FLT_BASES else (lambda x: text(x).encode('ascii'))
+                if c['alen'] > 0:
+                    arr[cn][ri] = [conv(x) for x in cells[ci]]
+                else:
+                    arr[cn][ri] = conv(cells[ci])
+        names.append(text(s['name']))
+        arrays.append(arr)
+    hdr = OrderedDict((text(k), text(v)) for k, v in doc['pairs'])
+    return names, arrays, (enums or None), (hdr or None)
